@@ -24,7 +24,7 @@ import ast
 from ..repo import AnalysisError, FuncInfo, dotted, own_nodes
 from ..sublist import SubInterp, is_sub
 from .c07 import registry
-from .common import key_lambda, one_shot_captures
+from .common import ctor_self_write, key_lambda, one_shot_captures
 
 MANIFEST = {
     "text": (
@@ -457,6 +457,10 @@ def _order(fi):
         while stack:
             n = stack.pop()
             cache[id(n)] = k
+            # copies of a node (alias expansion deep-copies) keep its span
+            span = (type(n).__name__, getattr(n, "lineno", None), getattr(n, "col_offset", None), getattr(n, "end_col_offset", None))
+            if span[1] is not None:
+                cache.setdefault(span, k)
             k += 1
             stack.extend(reversed(list(ast.iter_child_nodes(n))))
         try:
@@ -479,7 +483,11 @@ def _clock_order(fi, name_or_expr, defs):
     else:
         stmt = e
     if isinstance(e, ast.Call) and (dotted(e.func) or "") in ("time.perf_counter", "time.time", "time.monotonic", "time.process_time", "perf_counter"):
-        return _order(fi).get(id(stmt))
+        o = _order(fi)
+        got = o.get(id(stmt))
+        if got is None:
+            got = o.get((type(stmt).__name__, getattr(stmt, "lineno", None), getattr(stmt, "col_offset", None), getattr(stmt, "end_col_offset", None)))
+        return got
     return None
 
 
@@ -529,6 +537,8 @@ def _ortools_metadata(ctx, cls, call):
     defs = ctx.flow.defs(solve)
     if isinstance(v, ast.Name) and defs.of(v.id):
         v = defs.of(v.id)[-1][1]
+    if not (isinstance(v, ast.BinOp) and isinstance(v.op, ast.Sub)):
+        v = ctx.norm.xexpr(solve, kv["elapsed_time"])  # e.g. one element of a tuple returned by an inlined step
     _elapsed(ctx, solve, v)
     sb = kv.get("solved_by")
     if isinstance(sb, ast.Constant) and sb.value == cls.name or (sb is not None and ast.unparse(sb) in ("self.__class__.__name__", "type(self).__name__")):
@@ -605,6 +615,10 @@ def _own_container(ctx, cls, attr) -> bool:
     for v in srcs:
         fresh = isinstance(v, (ast.Dict, ast.List, ast.Set)) and not getattr(v, "keys", None) and not getattr(v, "elts", None)
         fresh = fresh or (isinstance(v, ast.Call) and isinstance(v.func, ast.Name) and v.func.id in ("dict", "list", "set", "defaultdict", "OrderedDict") and not v.args)
+        # a private record object the callable creates for itself: _State()
+        if not fresh and isinstance(v, ast.Call) and isinstance(v.func, ast.Name):
+            q = ctx.repo.resolve(cls.module.name, v.func.id)
+            fresh = bool(q and q in ctx.repo.classes and v.func.id.startswith("_"))
         if not fresh:
             return False
     return True
@@ -630,6 +644,8 @@ def purity(ctx):
         bad = False
         for w in ctx.effects.closure_writes(fi, fi.cls, max_depth=3, stop=lambda t: t.name in ("create_or_get_observer", "__init__")):
             obj = w.obj
+            if ctor_self_write(w):
+                continue  # a private helper object initialising itself
             # rebinding an attribute of the callable object itself is its own state
             if isinstance(obj, ast.Name) and w.fi.cls is not None and w.fi.params and obj.id == w.fi.params[0] and w.fi.cls is fi.cls:
                 continue
@@ -640,6 +656,14 @@ def purity(ctx):
                 and obj.value.id == w.fi.params[0] and w.fi.cls is fi.cls and _own_container(ctx, fi.cls, obj.attr)
             ):
                 continue
+            # ... also through a local alias of that container / record
+            if w.fi.cls is fi.cls and fi.cls is not None and w.fi.params:
+                own = [
+                    o for o in w.origins
+                    if o[0] == "attr" and o[1] == w.fi.params[0] and o[2] and _own_container(ctx, fi.cls, o[2][0])
+                ]
+                if own and len(own) == len([o for o in w.origins if o[0] not in ("fresh",)]):
+                    continue
             shared = [o for o in w.origins if is_shared(o) and o[0] not in ("unknown", "global")]
             if not shared:
                 continue
